@@ -164,6 +164,13 @@ func walkToUnescapedChar(buf []byte, char byte, startAt int, isEscaped bool) int
 func scanMetricName(buf []byte, isEscaped bool) (endAt int, err error) {
 	// unescaped comma;
 	commaAt := walkToUnescapedChar(buf, ',', 0, isEscaped)
+	if commaAt > 0 {
+		// a comma after the first unescaped whitespace separates fields, not the name from the tags:
+		// cpu value=1,load=2, no tags
+		if whiteSpaceAt := walkToUnescapedChar(buf, ' ', 0, isEscaped); whiteSpaceAt > 0 && whiteSpaceAt < commaAt {
+			return whiteSpaceAt, nil
+		}
+	}
 	switch {
 	case commaAt == 0:
 		return -1, ErrMissingMetricName
